@@ -687,3 +687,83 @@ func (p *Prog) String() string {
 // SSAInstr and SSAValue re-export the ssa interfaces for the driver.
 type SSAInstr = ssa.Instruction
 type SSAValue = ssa.Value
+
+// ReachCS is Reach with one level of context for callbacks: a call through a
+// function-typed parameter only follows the functions actually passed for
+// that parameter on the current call chain (falling back to all bound
+// functions when the chain does not determine them).
+func (p *Prog) ReachCS(root *ssa.Function) map[*ssa.Function]bool {
+	seen := map[*ssa.Function]bool{}
+	type ctxKey struct {
+		fn  *ssa.Function
+		sig string
+	}
+	done := map[ctxKey]bool{}
+	var walk func(f *ssa.Function, bind map[*ssa.Parameter][]*ssa.Function, depth int)
+	walk = func(f *ssa.Function, bind map[*ssa.Parameter][]*ssa.Function, depth int) {
+		if f == nil || depth > 40 {
+			return
+		}
+		sig := ""
+		for _, par := range f.Params {
+			if fs, ok := bind[par]; ok {
+				for _, x := range fs {
+					sig += fmt.Sprintf("%p,", x)
+				}
+				sig += ";"
+			}
+		}
+		k := ctxKey{f, sig}
+		if done[k] {
+			return
+		}
+		done[k] = true
+		seen[f] = true
+		for _, e := range p.Out[f] {
+			if e.Kind == "param" {
+				// which parameter is being called?
+				fns, pars, _ := resolveFuncValue(e.Site.Common().Value, map[ssa.Value]bool{})
+				_ = fns
+				allowed := false
+				known := false
+				for _, par := range pars {
+					if fs, ok := bind[par]; ok {
+						known = true
+						for _, x := range fs {
+							if x == e.Callee {
+								allowed = true
+							}
+						}
+					}
+				}
+				if known && !allowed {
+					continue
+				}
+			}
+			// bindings for the callee's function-typed parameters at this site
+			nb := map[*ssa.Parameter][]*ssa.Function{}
+			args := siteArgsOf(e.Site.Common())
+			for i, par := range e.Callee.Params {
+				if _, ok := par.Type().Underlying().(*types.Signature); !ok || i >= len(args) {
+					continue
+				}
+				fs, pars, _ := resolveFuncValue(args[i], map[ssa.Value]bool{})
+				var bound []*ssa.Function
+				bound = append(bound, fs...)
+				for _, q := range pars {
+					bound = append(bound, bind[q]...)
+				}
+				nb[par] = bound
+			}
+			// closures keep the bindings of their lexical parent
+			if e.Callee.Parent() != nil {
+				for k2, v2 := range bind {
+					nb[k2] = v2
+				}
+			}
+			walk(e.Callee, nb, depth+1)
+		}
+	}
+	walk(root, map[*ssa.Parameter][]*ssa.Function{}, 0)
+	return seen
+}
